@@ -35,6 +35,8 @@ func nameCode(s string) int64 {
 		var n int64
 		fmt.Sscanf(skipNameRe.FindStringSubmatch(s)[1], "%d", &n)
 		return -2 - n
+	case strings.Trim(s, " ") == "" && treeName(len(s)) == s: // the all-blank names of treeName
+		return int64(len(s))
 	case strings.HasPrefix(s, "n"):
 		var k int64
 		if _, err := fmt.Sscanf(s, "n%d", &k); err == nil && treeName(int(k)) == s {
